@@ -1,0 +1,25 @@
+//go:build verif
+
+package dilithium
+
+// Hook point for the verification harness (build tag "verif"): one event per
+// iteration of the signing loop. exit: 0 accept, 1 z too large, 2 w0 too
+// large, 3 ct0 too large, 4 too many hints. A nil hook changes nothing.
+
+var VerifSignHook func(exit int, nonce uint16, z *[L]VerifPoly, w0, h *[K]VerifPoly, hints uint)
+
+func verifSignEvent(exit int, nonce uint16, z *polyVecL, w0, h *polyVecK, hints uint) {
+	if VerifSignHook == nil {
+		return
+	}
+	var zz [L]VerifPoly
+	var ww, hh [K]VerifPoly
+	for i := 0; i < L; i++ {
+		zz[i] = z.vec[i].coeffs
+	}
+	for i := 0; i < K; i++ {
+		ww[i] = w0.vec[i].coeffs
+		hh[i] = h.vec[i].coeffs
+	}
+	VerifSignHook(exit, nonce, &zz, &ww, &hh, hints)
+}
